@@ -1485,3 +1485,86 @@ package go9p
 //@   requires sz >= 0
 //@   ensures  sz == 0 ==> l == nil
 //@   ensures  sz != 0 ==> l != nil && fresh(l) && len(l.items) == sz && l.idx == 0
+
+// ---------------------------------------------------------------------------
+// C13 / C12: the server receive loop. instream(c) is the sequence of bytes the transport will deliver on
+// connection c (a prophecy: Read returns its next bytes, however it segments them); rd counts the bytes read
+// so far, nf the frames consumed so far; fstart(s, k) is where frame k starts under greedy framing of s.
+
+//@ rec instream(c int) arr
+//@ rec fstart(s arr, k int) int
+//@   axiom forall s arr {fstart(s, 0)} :: fstart(s, 0) == 0
+//@   axiom forall s arr, k int {fstart(s, k)} :: k >= 0 ==> fstart(s, k+1) == fstart(s, k) + a32(s, fstart(s, k))
+
+//@ func (*Logger).Log(l, data, owner, itype)
+//@   property C20 C06
+//@   requires l != nil
+//@   assigns  fresh
+
+//@ func (*Conn).logFcall(conn, fc)
+//@   property C06
+//@   at call((*Logger).Log) assume arg0 != nil
+//@   requires conn != nil && fc != nil && conn.Srv != nil
+//@   assigns  fresh
+
+//@ func (*SrvReq).process(req)
+//@   property C07 C06 C03
+//@   requires reqwf(req) && poolok(req.Conn) && nolocks() && len(req.Rc.Buf) >= req.Conn.Msize
+//@   at call((*SrvReq).Process) requires [notflushed] flushed == false
+//@   assigns  everything
+
+//@ pure unread(conn, buf, pos, rd) = forall k int :: 0 <= k && k < pos ==> buf[k] == instream(conn)[rd - pos + k]
+
+//@ func (*Conn).recv(conn)
+//@   property C13 C12 C06 C03
+//@   requires connok(conn) && poolok(conn) && nolocks() && conn.conn != nil && conn.Msize <= 268435455
+//@   ghost rd int = 0
+//@   ghost nf int = 0
+//@   at call(net.Conn.Read) requires [room] len(arg1) > 0
+//@   at call(net.Conn.Read) requires [nodisturb] obj(arg1) == obj(buf) && off(arg1) == off(buf) + pos
+//@   at call(net.Conn.Read) ensures 0 <= ret0 && ret0 <= len(arg1) && forall k int :: 0 <= k && k < ret0 ==> arg1[k] == instream(conn)[rd + k]
+//@   at call(net.Conn.Read) after rd := rd + ret0
+//@   at call(Unpack) requires [gate] 4 < pos && u32le(buf, 0) <= conn.Msize && u32le(buf, 0) <= pos && pos <= len(buf)
+//@   at call(Unpack) requires [stream] unread(conn, buf, pos, rd)
+//@   at call(Unpack) requires [aligned] rd - pos == fstart(instream(conn), nf)
+//@   at call(Unpack) after nf := nf + 1
+//@   at call((*SrvReq).process) requires [size] 7 <= arg0.Tc.Size && arg0.Tc.Size <= conn.Msize && len(arg0.Rc.Buf) <= conn.Msize
+//@   at go((*SrvReq).process) requires [size] 7 <= arg0.Tc.Size && arg0.Tc.Size <= conn.Msize && len(arg0.Rc.Buf) <= conn.Msize
+//@   at call((*SrvReq).process) ensures forall k int :: 0 <= k && k < len(buf) ==> buf[k] == before(buf[k])
+//@   at call((*SrvReq).process) ensures connok(conn) && poolok(conn) && conn.conn == before(conn.conn) && conn.Msize <= before(conn.Msize)
+//@   at select(*) ensures ret0 == 0 ==> ret2 != nil && len(ret2.Buf) >= 24 && len(ret2.Buf) >= conn.Msize
+//@   loop 1
+//@     invariant connok(conn) && poolok(conn) && nolocks() && conn.conn != nil && conn.Msize <= 268435455
+//@     invariant 0 <= pos && pos <= len(buf) && (pos <= 4 || (pos < u32le(buf, 0) && u32le(buf, 0) <= len(buf) && u32le(buf, 0) <= conn.Msize))
+//@     invariant (len(buf) >= conn.Msize ==> pos < len(buf))
+//@     invariant unread(conn, buf, pos, rd) && rd - pos == fstart(instream(conn), nf) && nf >= 0 && rd >= pos
+//@   loop 2
+//@     invariant connok(conn) && poolok(conn) && nolocks() && conn.conn != nil && conn.Msize <= 268435455
+//@     invariant 0 <= pos && pos <= len(buf)
+//@     invariant unread(conn, buf, pos, rd) && rd - pos == fstart(instream(conn), nf) && nf >= 0 && rd >= pos
+
+//@ func (*Fcall).String(fc) (s)
+//@   property C06
+//@   trusted formatting for debug output; reads the Fcall and allocates a string
+//@   assigns  fresh
+
+//@ func (*Conn).send(conn)
+//@   property C03 C06 C12
+//@   requires connok(conn) && nolocks() && conn.conn != nil
+//@   at select(*)#1 ensures ret0 == 1 ==> ret3 != nil && reqwf(ret3) && ret3.Conn == conn && len(ret3.Rc.Pkt) >= 7 && len(ret3.Rc.Pkt) <= len(ret3.Rc.Buf) && len(ret3.Rc.Buf) <= conn.Msize
+//@   at call(SetTag) requires [tag] arg1 == req.Tc.Tag && arg0 == req.Rc
+//@   at call(net.Conn.Write) requires [msize] len(arg1) <= conn.Msize
+//@   at call(net.Conn.Write) ensures ret1 == nil ==> 0 <= ret0 && ret0 <= len(arg1)
+//@   at call(net.Conn.Write)#1 requires [tagbytes] u16le(req.Rc.Pkt, 5) == req.Tc.Tag
+//@   loop 1
+//@     invariant connok(conn) && nolocks() && conn.conn != nil
+//@   loop 2
+//@     invariant connok(conn) && nolocks() && conn.conn != nil && req != nil && reqwf(req) && len(buf) <= conn.Msize
+
+// transport (assumed): Write only reads its argument; Read stores into its argument only
+//@ iface net.Conn.Write(c, b) (n, err)
+//@   assigns  nothing
+//@ iface net.Conn.Read(c, b) (n, err)
+//@   assigns  elems(b)
+//@ iface net.Conn.Close(c) (err)
+//@   assigns  nothing
